@@ -183,6 +183,9 @@ func (f *file) asyncReadNow(b []byte, readSoFar int, readAll bool, cb AsyncCallb
 		// If readAll == true then read some without errors.
 		// We schedule an asynchronous read.
 		f.scheduleRead(readSoFar, cb)
+	} else if err == nil {
+		// readAll == true and the kernel returned only part of what was asked for: keep reading.
+		f.asyncReadNow(b, readSoFar, readAll, cb)
 	} else {
 		cb(err, readSoFar)
 	}
@@ -240,6 +243,9 @@ func (f *file) asyncWriteNow(b []byte, wroteSoFar int, writeAll bool, cb AsyncCa
 	// Handles (writeAll == false) and (writeAll == true && wroteSoFar != len(b)).
 	if err == sonicerrors.ErrWouldBlock {
 		f.scheduleWrite(wroteSoFar, cb)
+	} else if err == nil {
+		// writeAll == true and the kernel accepted only part of the buffer: keep writing.
+		f.asyncWriteNow(b, wroteSoFar, writeAll, cb)
 	} else {
 		cb(err, wroteSoFar)
 	}
